@@ -20,7 +20,7 @@ OPS = {
     "senddrop": (["send", "drop"], 0, False, False), "dropsend": (["drop", "send"], 0, True, False),
     "dropdrop": (["drop", "drop"], 0, True, False), "takedrop": (["take", "drop"], 0, True, False),
     "takesendorig": (["take", "send"], 0, False, False), "mutate": ([], 0, False, False),
-    "none": ([], 0, False, False),
+    "none": ([], 0, False, False), "predraise": ([], 0, False, False),
 }
 
 
@@ -145,10 +145,17 @@ def run_scenario(cfg):
                 sc.act(beh, env.region, message)
                 return None
             return handler
-        if cfg["sess"] != "none":
-            env.session.message_handler.subscribe("*", sub("sess", cfg["sess"]))
-        if cfg["reg"] != "none":
-            env.region.message_handler.subscribe("*", sub("reg", cfg["reg"]))
+        def raising_pred(message):
+            # an addon's predicate that blows up on one particular (legal) message
+            if not message.synthetic and message.name != "PacketAck" and message.packet_id == 1:
+                raise KeyError("scripted predicate failure")
+            return True
+        for point, mh in (("sess", env.session.message_handler), ("reg", env.region.message_handler)):
+            beh = cfg[point]
+            if beh == "predraise":
+                mh.register("*").subscribe(sub(point, "falsy"), predicate=raising_pred)
+            elif beh != "none":
+                mh.subscribe("*", sub(point, beh))
         m1 = _first_message(cfg)
         exc = env.deliver(m1)
         proxyenv.pump(loop, 2)
@@ -282,13 +289,13 @@ def run(chk: Check):
                        "subscribers x direction x reliability x {plain, command-channel chat}, each run through the real proxy; followed by "
                        "a second plain message. non-trivial = at least one hook does something other than return falsy")
     chk.assumptions += ["addons interact with the message only through take()/circuit.send()/circuit.drop_message()/field assignment and return values",
-                        "subscriber predicates do not raise (outside the property's alphabet)",
+                        "a raising subscriber predicate is modelled for one subscriber per level (Event.notify does not isolate predicates from later subscribers of the SAME event; that case is not generated)",
                         "emissions are classified by content marker (copy marked 101/'copy', mutation 55/'mutated')"]
     if chk.tier == "quick":
         _table(chk, 2, ["falsy", "truthy", "raise"], CORE_UDP, ["none", "raise", "take"], ["plain", "cmdchat"], "n2-core")
-        _table(chk, 1, ["falsy"], ALL_UDP, ["none", "falsy", "raise", "take", "takesend", "drop", "send"], ["plain"], "n1-all")
+        _table(chk, 1, ["falsy"], ALL_UDP, ["none", "falsy", "raise", "predraise", "take", "takesend", "drop", "send"], ["plain"], "n1-all")
     else:
-        _table(chk, 2, ["falsy", "truthy", "raise"], ALL_UDP, ["none", "raise", "take", "takesend"], ["plain", "cmdchat"], "n2-all")
+        _table(chk, 2, ["falsy", "truthy", "raise"], ALL_UDP, ["none", "raise", "predraise", "take", "takesend"], ["plain", "cmdchat"], "n2-all")
         _table(chk, 3, ["falsy", "truthy", "raise"], ["falsy", "truthy", "raise", "take", "drop", "send"], ["none", "take"], ["plain"], "n3-core")
     chk.cov["exhaustive"] = True
 
